@@ -450,7 +450,15 @@ def BInst.wfOrder (I : BInst) : Bool :=
 def BInst.wfRunning (I : BInst) : Bool :=
   (List.range I.nB).all (fun b => !I.bRunning b || decide ((I.task ((I.members b).headD 0)).prevW < I.nW))
 
+/-- Two different BatchTasks share a member only if both were built from the queue of not yet
+placed tasks (then that member's `…_unique_batch_placement` row covers both): a previously
+placed task belongs to exactly one group, and to no fresh BatchTask. -/
+def BInst.wfShared (I : BInst) : Bool :=
+  (List.range I.nB).all (fun a => (List.range I.nB).all (fun b =>
+    a == b || !((I.members a).any (fun m => (I.members b).contains m)) ||
+    ((I.batch a).fresh && (I.batch b).fresh)))
+
 def BInst.wf (I : BInst) : Bool :=
-  I.wfSizes && I.wfNames && I.wfOrder && I.wfRunning && decide (I.nOffered ≤ I.nT)
+  I.wfSizes && I.wfNames && I.wfOrder && I.wfRunning && I.wfShared && decide (I.nOffered ≤ I.nT)
 
 end ErdosVerif.IlpBatch
